@@ -93,6 +93,13 @@ CHECKS = {
              "alpha (unless skipped) with aligned parallel vectors. Does not decide rounding/clamping or sample equality between outputs.",
         note="affine forms with rational coefficients; an arm that is not straight-line affine arithmetic is reported as not evaluable (fail closed)",
         ref="DESIGN.md section 3 C15"),
+    "C16": dict(
+        technique="dispatch-table extraction from the discriminant switch of three sibling dispatchers (resolved callees + const generic arguments) and comparison with the format's table",
+        text="Claimed narrowly: every one of the 27 transform types has a handler, and the generic, SSE2 and SSE4.1 dispatchers route each "
+             "type to the corresponding kernel family with the same const generic argument (e.g. Dct8x4 -> dct4x8<true>, Afv2 -> afv<2>). "
+             "Does not decide any numerical property of the kernels.",
+        note="kernel families are recognised by name after stripping the architecture suffix",
+        ref="DESIGN.md section 3 C16"),
     "C20": dict(
         technique="protocol-shape rules on MIR: who-may-write census, test-and-set shape, must-pass-through, guard liveness dataflow",
         text="Decides the structural safety argument of the render-handle protocol for every interleaving: exact writer/locker "
